@@ -147,4 +147,109 @@ theorem loadBackB_chain {F : Bytes} {S : Store} {l i : Nat} (h : ChainAt F S l i
       simp only [recOff, if_neg hl, loadBack, recAt] at hfuel ⊢
       exact ih h fuel hfuel
 
+/-! ### the record iterator on encoded records -/
+
+/-- what the readers need to know about a record of a transaction whose older transactions are
+    `older`: its fields fit, and its back-pointer chain is present in the image -/
+def RecAtOK (F : Bytes) (older : Store) (r : Rec) : Prop :=
+  RecEnc r ∧ (match r.body with | .back l i => ChainAt F older l i | _ => True)
+
+theorem readRec_enc {F : Bytes} {q : Nat} {older : Store} {tpos tend : Nat} {r : Rec} {ir : IRec}
+    (hat : At F q (encRec older tpos r)) (hok : RecAtOK F older r) (htpos : tpos < 2 ^ 64)
+    (hsz : storeSize older < 2 ^ 64) (hend : q + recLen r ≤ tend) (hir : iterRec older r = some ir) :
+    readRec F tpos tend q = .one ir (recLen r) := by
+  obtain ⟨⟨hoid, hser, hbody⟩, hch⟩ := hok
+  obtain ⟨g1, g2, g3, g4, g5, g6⟩ := encRec_fields hat hoid hser htpos
+  have hrl := recLen_ge r
+  unfold readRec
+  rw [if_neg (by omega), if_neg (by simp [g4])]
+  simp only [g1, g2, g3]
+  unfold iterRec at hir
+  cases hb : r.body with
+  | full d =>
+    simp only [hb] at hbody g5 hir
+    obtain ⟨e1, e2⟩ := encBody_full g5 (by simp only [hugeRead] at hbody; omega)
+    have hne : d.length ≠ 0 := by
+      intro h0; exact hbody.1 (List.eq_nil_of_length_eq_zero h0)
+    rw [show q + 34 + 8 = q + 42 by omega] at e2
+    have hrl' : recLen r = 42 + d.length := by simp [recLen, hb]
+    simp only [Option.some.injEq] at hir
+    rw [e1, if_pos hne, if_neg (by omega), e2, hrl', hir]
+  | uncreate =>
+    simp only [hb] at g5 hir
+    obtain ⟨e1, e2⟩ := encBody_uncreate g5
+    rw [show q + 34 + 8 = q + 42 by omega] at e2
+    have hrl' : recLen r = 50 := by simp [recLen, hb]
+    simp only [Option.some.injEq] at hir
+    rw [e1, if_neg (by simp), if_neg (by omega), if_neg (by omega), e2, if_pos rfl, hrl', hir]
+  | back l i =>
+    simp only [hb] at g5 hch hir
+    have hoff := chainAt_off hch
+    have hle := recOff_le older l i
+    obtain ⟨e1, e2⟩ := encBody_back g5 (by omega)
+    rw [show q + 34 + 8 = q + 42 by omega] at e2
+    have hrl' : recLen r = 50 := by simp [recLen, hb]
+    obtain ⟨v, r', o', h1, h2, h3, h4, h5⟩ := loadBackB_chain hch (recOff older l i + 1) (by omega)
+    rw [e1, if_neg (by simp), if_neg (by omega), if_neg (by omega), e2, if_neg (by omega), h2]
+    simp only [h1, h3] at hir
+    simp only [h4, h5]
+    split at hir
+    · rename_i heq
+      simp only [Option.some.injEq] at hir
+      rw [if_neg (by simp [heq]), hrl', hir]
+    · simp at hir
+
+theorem encRecs_cons_at {F : Bytes} {q : Nat} {older : Store} {tpos : Nat} {r : Rec} {rs : List Rec}
+    (h : At F q (encRecs older tpos (r :: rs))) :
+    At F q (encRec older tpos r) ∧ At F (q + recLen r) (encRecs older tpos rs) := by
+  simp only [encRecs] at h
+  have := h.app
+  rwa [encRec_length] at this
+
+theorem readRecs_enc {F : Bytes} {D older : Store} {tpos tend : Nat} (htpos : tpos < 2 ^ 64)
+    (hsz : storeSize older < 2 ^ 64) :
+    ∀ (rs : List Rec) (q : Nat) (irs : List IRec), At F q (encRecs older tpos rs) →
+      (∀ r ∈ rs, RecAtOK F older r) → q + recsLen rs = tend → iterRecs older rs = some irs →
+      ∀ fuel, rs.length < fuel →
+        readRecs F D tpos tend fuel q =
+          (match restoreRecs D irs with | .ok xs => Recs.ok xs | .error _ => Recs.err) := by
+  intro rs
+  induction rs with
+  | nil =>
+    intro q irs _ _ hq hirs fuel hfuel
+    simp only [recsLen] at hq
+    simp only [iterRecs, Option.some.injEq] at hirs
+    subst hirs
+    cases fuel with
+    | zero => omega
+    | succ f => simp only [readRecs, restoreRecs]; rw [if_neg (by omega), if_pos (by omega)]
+  | cons r rs ih =>
+    intro q irs hat hok hq hirs fuel hfuel
+    obtain ⟨hat1, hat2⟩ := encRecs_cons_at hat
+    simp only [recsLen] at hq
+    simp only [iterRecs] at hirs
+    split at hirs
+    · rename_i ir irs' hir hirs'
+      simp only [Option.some.injEq] at hirs
+      subst hirs
+      have hrl := recLen_ge r
+      cases fuel with
+      | zero => omega
+      | succ f =>
+        simp only [List.length_cons] at hfuel
+        simp only [readRecs]
+        rw [if_pos (by omega), readRec_enc hat1 (hok r List.mem_cons_self) htpos hsz (by omega) hir]
+        simp only [restoreRecs]
+        have hrec := ih (q + recLen r) irs' hat2 (fun r' hr' => hok r' (List.mem_cons_of_mem _ hr'))
+          (by omega) hirs' f (by omega)
+        rw [hrec]
+        cases restoreRec D ir with
+        | error e => rfl
+        | ok x =>
+          simp only
+          cases restoreRecs D irs' with
+          | error e => rfl
+          | ok xs => rfl
+    · simp at hirs
+
 end Proofs.Recover
